@@ -493,6 +493,13 @@ func (s *Server) updateBlockHeader(ev UpdateExistedHeaderEvent) {
 		logging.Error("UpdateExistedHeader failed. Get UconValidators failed.", "Round", ev.Round, "RoundIndex", ev.RoundIndex, "err", err)
 		return
 	}
+	if ev.Round == nil || ev.Round.Cmp(blockHead.Number) != 0 || ev.RoundIndex != ucValidators.RoundIndex {
+		// The votes of a header are verified for the round index it was committed in: precommits
+		// of another round index sign another payload and carry another sortition proof.
+		logging.Debug("UpdateExistedHeader skipped: votes of another round index.", "Round", ev.Round, "RoundIndex", ev.RoundIndex,
+			"HeaderRoundIndex", ucValidators.RoundIndex)
+		return
+	}
 	logging.Info("UpdateExistedHeader before.", "Round", ev.Round, "Chamber", len(chamberAddrs),
 		"House", len(houseAddrs))
 
